@@ -390,7 +390,7 @@ type cfgGen struct {
 	budget int
 }
 
-func (g *cfgGen) n(max int, label string) int { return rapid.IntRange(0, max-1).Draw(g.t, label) }
+func (g *cfgGen) n(max int, label string) int { return uni(g.t, max, label) }
 
 var cfgIdents = []string{"a", "b", "c", "foo", "_", "x1", `"q"`, `""`, `"a b"`, `"é"`, "abs", "length", "sort_by", "not_null"}
 var cfgFuncs = []string{"abs", "length", "sort_by", "not_null", "foo", "map", "merge", "to_string", "max_by", "keys"}
@@ -546,12 +546,12 @@ func mutate(t *rapid.T, lex []string) []string {
 	out := append([]string{}, lex...)
 	edits := 1 + rapid.IntRange(0, 1).Draw(t, "edits")
 	for e := 0; e < edits && len(out) > 0; e++ {
-		p := rapid.IntRange(0, len(out)-1).Draw(t, "mutPos")
-		switch rapid.IntRange(0, 5).Draw(t, "mutKind") {
+		p := uni(t, len(out), "mutPos")
+		switch uni(t, 6, "mutKind") {
 		case 0: // delete
 			out = append(out[:p], out[p+1:]...)
 		case 1: // insert
-			tk := mutTokens[rapid.IntRange(0, len(mutTokens)-1).Draw(t, "insTok")]
+			tk := mutTokens[uni(t, len(mutTokens), "insTok")]
 			out = append(out[:p], append([]string{tk}, out[p:]...)...)
 		case 2: // duplicate
 			out = append(out[:p], append([]string{out[p]}, out[p:]...)...)
@@ -560,7 +560,7 @@ func mutate(t *rapid.T, lex []string) []string {
 				out[p], out[p+1] = out[p+1], out[p]
 			}
 		case 4: // replace
-			out[p] = mutTokens[rapid.IntRange(0, len(mutTokens)-1).Draw(t, "repTok")]
+			out[p] = mutTokens[uni(t, len(mutTokens), "repTok")]
 		default: // delete a separator if there is one
 			for q := 0; q < len(out); q++ {
 				i := (p + q) % len(out)
@@ -579,7 +579,7 @@ func TestC04Random(t *testing.T) {
 	rapid.Check(t, func(t *rapid.T) {
 		lex := genSentence(t, 4+rapid.IntRange(0, 20).Draw(t, "budget"))
 		nearmiss := false
-		if rapid.IntRange(0, 9).Draw(t, "mutate") < 6 {
+		if uni(t, 10, "mutate") < 6 {
 			lex = mutate(t, lex)
 			nearmiss = true
 		}
@@ -597,7 +597,7 @@ func TestC04Random(t *testing.T) {
 }
 
 // lexically broken texts: all must be rejected at Compile.
-var lexBroken = []string{"a # b", "a ? b", "a = b", "a % b", "~a", "a;b", "a\u0080", "\u00e9", "a.\u00e9", "'abc", "\"abc", "`1", "`x`", "\"\\x\"", "a - b", "-", "[-]", "a[-:]", "`{a:1}`", "'a'b'", "\"a\"b\"", "a\x00", "\x00", "a\u2028b", "a $ b", "^", "a\\b"}
+var lexBroken = []string{"`1 2`", "`[1]]`", "`1x`", "`{\"a\":1}}`", "`null null`", "`\"a\" \"b\"`", "`[] []`", "`1,2`", "`tru`", "`[1,]`", "`{\"a\"}`", "`01`", "`.5`", "`+1`", "`1.`", "`'a'`", "`NaN`", "`\"\t\"`", "\"a\tb\"", "\"\\u12\"", "\"a\nb\"", "a # b", "a ? b", "a = b", "a % b", "~a", "a;b", "a\u0080", "\u00e9", "a.\u00e9", "'abc", "\"abc", "`1", "`x`", "\"\\x\"", "a - b", "-", "[-]", "a[-:]", "`{a:1}`", "'a'b'", "\"a\"b\"", "a\x00", "\x00", "a\u2028b", "a $ b", "^", "a\\b"}
 
 func TestC04LexBroken(t *testing.T) {
 	st := statsFor("C04")
@@ -791,3 +791,56 @@ func TestC03Random(t *testing.T) {
 }
 
 var _ = os.Getenv
+
+
+// TestC04Literals: JSON literals and quoted identifiers whose text is a valid JSON
+// value/string with one or two character-level edits (append junk, duplicate,
+// delete, insert): Compile must accept the expression iff the standard library
+// accepts the edited text as exactly one JSON value (string for identifiers).
+func TestC04Literals(t *testing.T) {
+	junk := []string{" 2", "]", "}", "x", ",", " null", "\"", "1", " []", "\\", ":", "0", ".", "e", "-", "+", " ", "\t", "tru"}
+	rapid.Check(t, func(t *rapid.T) {
+		v := genValue(t, 1, docOpts{maxDepth: 3, maxWidth: 3})
+		text := ref.Canon(v)
+		quoted := uni(t, 4, "quotedIdent") == 0
+		if quoted {
+			text = ref.QuoteJSON(docStrings[uni(t, len(docStrings), "qs")])
+		}
+		edits := uni(t, 3, "edits")
+		for e := 0; e < edits; e++ {
+			p := rapid.IntRange(0, len(text)).Draw(t, "pos")
+			switch uni(t, 4, "editKind") {
+			case 0:
+				text = text + junk[uni(t, len(junk), "junk")]
+			case 1:
+				if p < len(text) {
+					text = text[:p] + text[p+1:]
+				}
+			case 2:
+				text = text[:p] + junk[uni(t, len(junk), "ins")] + text[p:]
+			default:
+				if p < len(text) {
+					text = text[:p] + text[p:p+1] + text[p:]
+				}
+			}
+		}
+		if !isValidUTF8(text) || strings.ContainsAny(text, "`") {
+			return
+		}
+		var expr string
+		if quoted {
+			if len(text) < 2 || text[0] != '"' || text[len(text)-1] != '"' || strings.Contains(text[1:len(text)-1], "\"") && !strings.Contains(text, "\\\"") {
+				return
+			}
+			expr = text
+		} else {
+			expr = "`" + text + "`"
+		}
+		ctx := []string{"%s", "a || %s", "[%s, b]", "f(%s)", "%s | c"}[uni(t, 5, "ctx")]
+		if quoted {
+			ctx = []string{"%s", "a.%s", "{%s: b}", "%s.b", "[?%s]"}[uni(t, 5, "qctx")]
+		}
+		c := Case{Property: "C04", Kind: "lang", Expr: strings.Replace(ctx, "%s", expr, 1), Extra: map[string]interface{}{"nearmiss": true}}
+		run(t, c)
+	})
+}
